@@ -15,12 +15,14 @@ import (
 	"verifharness/lib/c13"
 	"verifharness/lib/c16"
 	"verifharness/lib/c18"
+	"verifharness/sl/c01"
 	"verifharness/sl/c04"
 	"verifharness/sl/c05"
 	"verifharness/sl/c09"
 )
 
 var cmds = map[string]func([]string) int{
+	"C01": c01.Main,
 	"C04": c04.Main,
 	"C05": c05.Main,
 	"C09": c09.Main,
